@@ -26,6 +26,10 @@ def ampF (t : Term) (s u : Nat) : Int :=
 /-- `[a, b] = 0` as linear maps on Fock space (single terms, coefficient 1) -/
 def CommZeroF (a b : Term) : Prop := ∀ s u, ampF (a ++ b) s u - ampF (b ++ a) s u = 0
 
+/-- `⟦a⟧⟦b⟧|s⟩ = ⟦b⟧⟦a⟧|s⟩` for every Fock basis state (`none` = 0, `some (k, s')` = `(-1)^k |s'⟩`,
+`k` reduced mod 2) -/
+def CommutesF (a b : Term) : Prop := ∀ s, actFTerm (a ++ b) s = actFTerm (b ++ a) s
+
 /-- matrix element of `[a, [b, c]] = abc - acb - bca + cba` -/
 def dcAmpF (a b c : Term) (s u : Nat) : Int :=
   ampF (a ++ b ++ c) s u - ampF (a ++ c ++ b) s u - ampF (b ++ c ++ a) s u + ampF (c ++ b ++ a) s u
@@ -38,6 +42,9 @@ def ampP (t : Term) (s u : Nat) : GQ :=
   if r.2 = u then GQ.ipow r.1 else 0
 
 def CommZeroP (a b : Term) : Prop := ∀ s u, ampP (a ++ b) s u - ampP (b ++ a) s u = 0
+
+/-- `⟦a⟧⟦b⟧|s⟩ = ⟦b⟧⟦a⟧|s⟩` for every basis state, as `i^k |s'⟩` with `k` reduced mod 4 -/
+def CommutesP (a b : Term) : Prop := ∀ s, actPTerm (a ++ b) s = actPTerm (b ++ a) s
 
 def dcAmpP (a b c : Term) (s u : Nat) : GQ :=
   ampP (a ++ b ++ c) s u - ampP (a ++ c ++ b) s u - ampP (b ++ c ++ a) s u + ampP (c ++ b ++ a) s u
